@@ -8,10 +8,12 @@ EXM = {'MODE_CBFAIL': XB + '|overrun_encoder_cb', 'MODE_ILLFORMED': XB + '|overr
        'MODE_BUFFER': XB + '|callback_failure_catch_cb',
        'MODE_NEWBUF': XB.replace('dynamic_encoder_cb|', '') + '|overrun_encoder_cb|callback_failure_catch_cb'}
 HARNESSES = []
-Q = {('T_Seq', 'der'), ('T_Seq', 'oer'), ('T_Seq', 'uper'), ('T_Cho', 'oer'), ('T_SeqOf', 'der'), ('T_SeqX', 'oer'), ('T_Oct', 'uper'), ('T_Int', 'oer')}
+Q = {('T_Seq', 'der'), ('T_Seq', 'oer'), ('T_Seq', 'uper'), ('T_Cho', 'oer'), ('T_SeqOf', 'der'), ('T_SeqX', 'oer'), ('T_Oct', 'uper'), ('T_Int', 'oer'), ('T_Null', 'der'), ('T_Set', 'der')}
 for t, k in combos():
     for mode in ('MODE_CBFAIL', 'MODE_BUFFER', 'MODE_NEWBUF', 'MODE_ILLFORMED'):
-        if t not in QUICK_TYPES:
+        # types outside QUICK_TYPES: only the callback-failure mode (added after seed C07-setof-der-cbfail-last-element,
+        # which also exposed the NULL_encode_der defect fixed in /repo)
+        if t not in QUICK_TYPES and mode != 'MODE_CBFAIL':
             continue
         q = (t, k) in Q and (mode in ('MODE_CBFAIL',) or t == 'T_Seq')
         other = {'der': '_oer|_uper|_aper', 'uper': '_oer|_aper', 'oer': '_uper|_aper'}[k]
@@ -35,3 +37,14 @@ for k in ('der', 'oer'):
                            defines=['-DMODE_BUFFER', '-DSYNTAX=' + ATS[k][0], '-DSYNTAX_IS=%d' % ATS[k][1]],
                            exclude=EXM['MODE_BUFFER'] + '|' + other,
                            functions=['asn_encode_to_buffer/%s on T-Oct16' % k], inputs='OCTET STRING of 12..16 symbolic octets, buffer size 0..21'))
+
+# DER SET OF under callback failure: with symbolic elements the query does not conclude (>10 GB during propositional
+# reduction: SET_OF__encode_sorted keeps every element in its own heap buffer and sorts an array of structs holding
+# those pointers), so the VALUE is fixed and only the fault schedule (callback failure index -1..8) is symbolic.
+# Added after seed C07-setof-der-cbfail-last-element.
+for nfix in (1, 2):
+    HARNESSES.append(typed(H, 'c07_cbfail_T_SetOf_fixed%d_der' % nfix, 'typed/enc_contract.c', 'T_SetOf', 'der',
+                           defines=['-DMODE_CBFAIL', '-DSYNTAX=ATS_DER', '-DSYNTAX_IS=0', '-DSETOF_FIXED=%d' % nfix],
+                           exclude=EXM['MODE_CBFAIL'] + '|_oer|_uper|_aper',
+                           functions=['asn_encode/der on T-SetOf (SET_OF_encode_der with its sorted element buffers)'],
+                           inputs='fixed value %s, callback failure index -1..8 symbolic' % ('{65535}' if nfix == 1 else '{65535, 3}')))
